@@ -4,14 +4,15 @@
      label       = (tag, a, b)   tag 0 Offer(p=a, size=b) 1 SelTok a 2 SelCtx a 3 RelockTok a 4 RelockCtx a
                                      5 Cancel a 6 Read 7 Done(id=a, err class=b) 8 Result a 9 AwaitCtx a 10 Shutdown
                                      11 Pick(object a) 12 Obj(request a carries object b) 13 Broadcast (cond API)
-     observation = (result code, Size(), cond.waiting, len(cond.ch)); a negative component means
+                                     14 CRead(consumer a) 15 CWake(consumer a) 16 Corrupt(stored copy of request a)
+     observation = (result code, Size(), cond.waiting, len(cond.ch), consumers parked un-signalled in Read); a negative component means
                    "not observed after this label" (intermediate step of a free-running thread). *)
 From Verif Require Import Common.Base C02.Model.
 Local Open Scope Z_scope.
 
 Definition zcfg := (Z * Z * Z * Z)%type.
 Definition zlab := (Z * Z * Z)%type.
-Definition zobs := (Z * Z * Z * Z)%type.
+Definition zobs := (Z * Z * Z * Z * Z)%type.
 Definition zcase := (zcfg * list (zlab * zobs))%type.
 
 Definition cfg_of (z : zcfg) : cfg :=
@@ -37,13 +38,17 @@ Definition label_of (z : zlab) : option label :=
   | 11 => Some (LPick p)
   | 12 => if b <? 0 then None else Some (LObj p (Z.to_nat b))
   | 13 => Some LBroadcast
+  | 14 => Some (LCRead p)
+  | 15 => Some (LCWake p)
+  | 16 => Some (LCorrupt p)
   | _ => None
   end.
 
 Definition agree (observed model : Z) : bool := (observed <? 0) || (observed =? model).
 
 Definition obs_ok (o : zobs) (res : Z) (s : st) : bool :=
-  let '(r, sz, w, t) := o in
+  let '(r, sz, w, t, cw) := o in
+  agree cw (ccount false (cons s)) &&
   agree r res &&
   match lock s with
   | Free => agree sz (size s) && agree w (waiting s)
@@ -57,7 +62,11 @@ Fixpoint check_run (c : cfg) (s : st) (ls : list (zlab * zobs)) : bool :=
       match label_of zl with
       | None => false
       | Some l =>
-          match step c s l with
+          (* the anonymous LRead is the fault-free Read section: not allowed while unreadable items are stored *)
+          match (match l with
+                 | LRead => if existsb (fun x => memb (fst x) (corrupt s)) (items s) then None else step c s l
+                 | _ => step c s l
+                 end) with
           | None => false                      (* the model does not allow this label here *)
           | Some (s', res) => obs_ok o res s' && check_run c s' r
           end
@@ -75,7 +84,7 @@ Fixpoint model_run (c : cfg) (s : st) (ls : list (zlab * zobs)) : list (option z
       | None => [None]
       | Some (s', res) =>
           Some (res, match lock s' with Free => size s' | _ => -1 end,
-                match lock s' with Free => waiting s' | _ => -1 end, b2z (tok s')) :: model_run c s' r
+                match lock s' with Free => waiting s' | _ => -1 end, b2z (tok s'), ccount false (cons s')) :: model_run c s' r
       end
   end.
 
